@@ -220,6 +220,19 @@ pub fn user_op(g: &mut Gen, model: &Model, c: usize) -> Op {
         }
         20 => Op::Login { c, name: "nobody-here".into(), password: "whatever-pw".into() },
         21 | 22 => Op::Logout { c },
+        23 | 24 if !g.in_probe && g.rng.chance(g.cfg.pat_reuse_chance) => {
+            // a token expires, its name is used again before the cleaner ran, the name is deleted, and the
+            // newest token is presented: whatever the second create answered, a deleted token must not log in
+            let name = g.fresh_name("tok-");
+            let login_on = if c != 0 { Some(c) } else if g.cfg.clients > 1 { Some(1) } else { None };
+            g.pending.push_back(Op::Jump(3_000_000));
+            g.pending.push_back(Op::CreatePat { c, name: name.clone(), expiry_micros: *g.rng.pick(&[0u64, 60_000_000]) });
+            g.pending.push_back(Op::DeletePat { c, name: name.clone() });
+            if let Some(l) = login_on {
+                g.pending.push_back(Op::LoginPat { c: l, token_ref: usize::MAX });
+            }
+            Op::CreatePat { c, name, expiry_micros: 1_000_000 }
+        }
         23 | 24 => {
             let expiry = *g.rng.pick(&[0u64, 0, 1_000_000, 5_000_000, 60_000_000]);
             let name = if g.rng.chance(0.15) { "tok-1".to_string() } else { g.fresh_name("tok-") };
